@@ -55,7 +55,7 @@ def obligations(tier):
         for (b1, n1), (b2, n2) in [(c1, c2) for c1 in cases for c2 in cases]:
             bind = {k + '1': v for k, v in b1.items()} | {k + '2': v for k, v in b2.items()} | {'g0': 0, 'l0': 1}
             wide = (n1.startswith('change_') and (n2.startswith('change_') or n2 in ('remove_objects', 'add_objects'))) or \
-                   (n1 in ('remove_objects', 'add_objects') and n2 == 'change_unique+update')
+                   (n1 in ('remove_objects', 'add_objects') and n2.startswith('change_'))
             if wide:
                 # these prefixes do not finish as one query within 900 s (measured): one process per third operation
                 for b3, n3 in cases:
